@@ -39,10 +39,11 @@ def strategy(tier):
     big = tier != "quick"
     unit = st.one_of(st.sampled_from([1.0, 0.5, 2.0]),
                      st.floats(0.2, 5.0, allow_nan=False).map(lambda v: round(v, 3)))
-    e_mod = st.one_of(st.sampled_from([1.0, 210e9, 1e-3]), st.floats(0.01, 1e3, allow_nan=False).map(lambda v: round(v, 4)))
+    e_mod = st.one_of(st.sampled_from([1.0, 210e9, 1e-3, 1e-9, 1e-14]), st.floats(0.01, 1e3, allow_nan=False).map(lambda v: round(v, 4)))
     nu_s = st.one_of(st.sampled_from([0.3, 0.0, -0.5, 0.49]),
                      st.floats(-0.9, 0.49, allow_nan=False).map(lambda v: round(v, 4)))
-    prop = st.one_of(st.sampled_from([1.0, 2.5]), st.floats(0.01, 100.0, allow_nan=False).map(lambda v: round(v, 4)))
+    # SI magnitudes: vacuum permittivity, densities, conductivities
+    prop = st.one_of(st.sampled_from([1.0, 2.5, 8.854e-12, 1e-15, 2330.0, 1e9]), st.floats(0.01, 100.0, allow_nan=False).map(lambda v: round(v, 4)))
 
     @st.composite
     def case(draw):
@@ -56,6 +57,10 @@ def strategy(tier):
         iunit = st.integers(1, 3)     # integer-typed element sizes (DomainDefinition(2, 2, unitx=2, unity=1, unitz=1))
         un = draw(st.one_of(st.just([1.0, 1.0, 1.0]), st.tuples(unit, unit, unit).map(list),
                             st.tuples(unit, unit, unit).map(list), st.tuples(iunit, iunit, iunit).map(list)))
+        # physical length scale of the mesh (micrometre, millimetre, kilometre elements)
+        uscale = draw(st.sampled_from([1.0, 1.0, 1.0, 1e-6, 1e-3, 1e3]))
+        if uscale != 1.0:
+            un = [float(u) * uscale for u in un]
         kind = draw(st.sampled_from(["general", "stiffness", "mass", "poisson"]))
         if kind in ("general", "mass"):
             ndof = draw(st.integers(1, 3))
@@ -77,7 +82,7 @@ def strategy(tier):
                 bc = bc[::-1]
         else:
             bc = []
-        c = {"dom": {"nel": nel, "unit": un}, "kind": kind, "ndof": ndof,
+        c = {"dom": {"nel": nel, "unit": un}, "uscale": uscale, "kind": kind, "ndof": ndof,
              "bcmode": bcmode, "bc": bc,
              "bcdiag": draw(st.sampled_from(["default", "zero", "one", "rand"])),
              "addc": draw(st.sampled_from(["none", "none", "identity", "sparse", "springs"])),
@@ -149,6 +154,8 @@ def _check_case(case):
     labels = [f"dim{g.dim}", f"kind:{kind}", f"x:{case['xmode']}", f"mtype:{case['mtype']}", f"ndof{ndof}"]
     if g.nel >= 2:
         labels.append("multi")
+    if case.get("uscale", 1.0) != 1.0:
+        labels.append(f"length_scale:{case['uscale']:g}")
     if len(set(np.round(g.h, 12))) > 1:
         labels.append("aniso")
     has_bc = case["bcmode"] != "none"
